@@ -2,5 +2,5 @@
 # usage: benign_detail.sh <patch>  -> distinct VIOLATED / ANALYSIS-ERROR lines over all properties
 cd /repo && git apply "$1" || exit 2
 cd /verif
-for p in C01 C02 C03 C04 C05 C06 C08 C09 C10 C11 C12 C13 C14 C16 C17 C18 C19 C20; do /venv/bin/python -m sv $p --no-write 2>&1 | grep -E "^\[sv\] VIOLATED|^ANALYSIS-ERROR" | sed -E "s/property=C[0-9]+ //; s/ at pymablock[^:]*:[0-9()a-z ]*:/:/" ; done | sort | uniq -c | sort -rn
+for p in C01 C02 C03 C04 C05 C06 C07 C08 C09 C10 C11 C12 C13 C14 C16 C17 C18 C19 C20; do /venv/bin/python -m sv $p --no-write 2>&1 | grep -E "^\[sv\] VIOLATED|^ANALYSIS-ERROR" | sed -E "s/property=C[0-9]+ //; s/ at pymablock[^:]*:[0-9()a-z ]*:/:/" ; done | sort | uniq -c | sort -rn
 git -C /repo checkout -- .
